@@ -112,6 +112,17 @@ func child(p *props.Prop) int {
 	return 0
 }
 
+// shardEnv is the extra environment shard k starts with.
+func shardEnv(k int) string {
+	switch k % 4 {
+	case 1:
+		return "COLUMNS=20 LINES=5 TERM=dumb NO_COLOR=1 LANG=C LC_ALL=C LC_CTYPE=C"
+	case 3:
+		return "COLUMNS=400 LINES=100 TERM=xterm-256color COLORTERM=truecolor LANG=ja_JP.UTF-8 LC_ALL=ja_JP.UTF-8 LC_CTYPE=ja_JP.UTF-8"
+	}
+	return ""
+}
+
 func replay(p *props.Prop) int {
 	b, err := os.ReadFile(*fReplay)
 	if err != nil {
@@ -122,6 +133,21 @@ func replay(p *props.Prop) int {
 	if err := json.Unmarshal(b, &v); err != nil {
 		fmt.Printf("INCONCLUSIVE property=%s reason=bad-replay-file %v\n", p.ID, err)
 		return 2
+	}
+	if v.ProcEnv != "" && os.Getenv("VERIF_PROC_ENV") != v.ProcEnv {
+		// the case ran in a process started with other environment variables: start over with them
+		self, _ := os.Executable()
+		cmd := exec.Command(self, os.Args[1:]...)
+		cmd.Env = append(append(os.Environ(), strings.Fields(v.ProcEnv)...), "VERIF_PROC_ENV="+v.ProcEnv)
+		cmd.Stdout, cmd.Stderr = os.Stdout, os.Stderr
+		if err := cmd.Run(); err != nil {
+			if ee, ok := err.(*exec.ExitError); ok {
+				return ee.ExitCode()
+			}
+			fmt.Printf("INCONCLUSIVE property=%s reason=cannot-restart-replay %v\n", p.ID, err)
+			return 2
+		}
+		return 0
 	}
 	out, _ := os.MkdirTemp(filepath.Join(root(), ".build"), "replay-")
 	defer os.RemoveAll(out)
@@ -207,6 +233,13 @@ func parent(p *props.Prop) int {
 				"-shard", strconv.Itoa(k), "-nshards", strconv.Itoa(n), "-out", out)
 			cmd.Stdout, cmd.Stderr = logf, logf
 			cmd.Env = append(os.Environ(), "GOTRACEBACK=all")
+			// what a program finds in its environment is not up to the library: some shards start with the variables
+			// of a narrow dumb terminal in the C locale, some with those of a wide terminal in a Japanese locale (from
+			// which the width library the tabular packages measure with derives its East Asian setting at start-up)
+			if pe := shardEnv(k); pe != "" && !p.Race {
+				cmd.Env = append(cmd.Env, strings.Fields(pe)...)
+				cmd.Env = append(cmd.Env, "VERIF_PROC_ENV="+pe)
+			}
 			if p.Race {
 				cmd.Env = append(cmd.Env, "GORACE=halt_on_error=0 history_size=4 log_path="+filepath.Join(out, fmt.Sprintf("race-%d", k)))
 			}
